@@ -416,6 +416,42 @@ func runC09(res *hx.Result, rng *hx.Rng, tier string, outdir string) {
 	cf.Extra = append(cf.Extra, fmt.Sprintf("Definition cfg := {| c_key_panic := %s; c_dup_panic := %s |}.",
 		hx.Bool(res.Switches["type_panics_uncomparable_key"]), hx.Bool(res.Switches["type_panics_duplicate_member"])))
 
+	// Parse must be a function of its input: what an earlier caller did to the type object it
+	// got back (registering it into a TypeSet renames colliding structs in place, proxies convert
+	// meta-objects in place) must not change what a later Parse of the same text returns.
+	for _, pair := range [][2]string{
+		{"(s(iii)<Point,x,y,z>)<Shape,name,origin>", "((ff)<Point,x,y>i)<Seg,p,n>"},
+		{"[(i)<A,a>]", "{s(s)<A,b>}"},
+		{"(({I(Issss[(ss)<MetaMethodParameter,name,description>]s)<MetaMethod,uid,returnSignature,name,parametersSignature,description,parameters,returnDescription>}{I(Iss)<MetaSignal,uid,name,signature>}{I(Iss)<MetaProperty,uid,name,signature>}s)<MetaObject,methods,signals,properties,description>i)", "(i)<MetaObject,x>"},
+	} {
+		func() {
+			defer func() { recover() }()
+			a, errA := signature.Parse(pair[0])
+			b, errB := signature.Parse(pair[1])
+			if errA != nil || errB != nil {
+				return
+			}
+			set := signature.NewTypeSet()
+			a.RegisterTo(set)
+			b.RegisterTo(set)
+			if tt, ok := a.(*signature.TupleType); ok {
+				tt.ConvertMetaObjects()
+			}
+			for _, in := range pair {
+				again, err := signature.Parse(in)
+				if err != nil || again.Signature() != in {
+					got := "<error>"
+					if err == nil {
+						got = again.Signature()
+					}
+					res.Fail("parse-not-a-function", fmt.Sprintf("after the types of %q and %q were registered into one TypeSet, Parse(%q) prints %q", pair[0], pair[1], in, got))
+				}
+			}
+		}()
+		res.Count("purity|"+pair[0]+"|"+pair[1], true)
+		res.Dist("purity-after-registration")
+	}
+
 	add := func(in string, o sigObs, desc string, nontrivial bool) {
 		res.Count(in, nontrivial)
 		cf.Add("cases", caseTerm(in, o), desc)
